@@ -82,8 +82,14 @@ fn build_log(b: &Value, path: &Path) -> (Vec<u8>, Vec<Entry>, Vec<u64>) {
     let mut lb = LogBuilder::new(LogOptions::default(), path).unwrap();
     let mut entries = vec![];
     let mut per_batch = vec![];
+    let pad_before = b["pad_before_boundary"].as_u64();
     for (i, s) in b["sizes"].as_array().unwrap().iter().enumerate() {
-        let size = s.as_u64().unwrap() as usize;
+        let mut size = s.as_u64().unwrap() as usize;
+        if i == 1 && pad_before.is_some() {
+            // the second batch is sized so that exactly `pad_before_boundary` bytes remain before the 1 MiB boundary
+            let left = (1usize << 20) - lb.approximate_size() - pad_before.unwrap() as usize;
+            size = left - 13; // header: length byte + <= 12 bytes
+        }
         let mut wb = sst::log::WriteBatch::default();
         let mut n = 0u64;
         let mut j = 0i64;
@@ -103,6 +109,26 @@ fn build_log(b: &Value, path: &Path) -> (Vec<u8>, Vec<Entry>, Vec<u64>) {
             }
             n += 1;
             j += 1;
+        }
+        if i == 1 && pad_before.is_some() {
+            // trim / grow the last value until the frame ends exactly where wanted
+            let want_end = (1usize << 20) - pad_before.unwrap() as usize;
+            for _ in 0..64 {
+                let sz = wb.approximate_size();
+                let vl = if sz < 128 { 1 } else if sz < 16384 { 2 } else if sz < 2097152 { 3 } else { 4 };
+                let end = lb.approximate_size() + 9 + vl + sz;
+                if end == want_end { break; }
+                // rebuild the batch with the last value adjusted
+                let (k, t, v) = entries.pop().unwrap();
+                let mut v = v.unwrap_or_default();
+                if end > want_end { let cut = (end - want_end).min(v.len().saturating_sub(1)); v.truncate(v.len() - cut); } else { v.extend(std::iter::repeat(b'q').take(want_end - end)); }
+                let mut wb2 = sst::log::WriteBatch::default();
+                let start = entries.len() + 1 - n as usize;
+                for e in &entries[start..] { match &e.2 { Some(val) => wb2.put(&e.0, e.1, val).unwrap(), None => wb2.del(&e.0, e.1).unwrap() } }
+                wb2.put(&k, t, &v).unwrap();
+                entries.push((k, t, Some(v)));
+                wb = wb2;
+            }
         }
         lb.append(&wb).unwrap();
         per_batch.push(n);
@@ -378,6 +404,126 @@ fn read_mani(root: &Path, bytes: &[u8], pristine_edits: &[Value], pristine_state
     ops
 }
 
+
+//////////////////////////////////////////////// store //////////////////////////////////////////////
+
+fn store_opts(root: &Path, b: &Value) -> lsmtk::LsmtkOptions {
+    let mut args: Vec<String> = vec!["--path".into(), root.to_string_lossy().to_string()];
+    if let Some(m) = b["opts"].as_object() {
+        for (k, v) in m {
+            args.push(format!("--{k}"));
+            args.push(match v { Value::String(s) => s.clone(), x => x.to_string() });
+        }
+    }
+    let refs: Vec<&str> = args.iter().map(|s| s.as_str()).collect();
+    lsmtk::LsmtkOptions::from_arguments_relaxed("vh", &refs).0
+}
+
+fn sval(k: i64, round: i64, vlen: usize) -> Vec<u8> {
+    let mut v = format!("val{k}.{round}.").into_bytes();
+    while v.len() < vlen { v.push(b'a' + ((k + round) % 26) as u8); }
+    v
+}
+
+/// A store with several levels: rounds of writes, each flushed and followed by some compaction steps; optionally
+/// a last round left in the write-ahead log.
+fn build_store(b: &Value, root: &Path) {
+    let _ = std::fs::remove_dir_all(root);
+    lsmtk::verif::set_single_step(true);
+    let nkeys = b["nkeys"].as_i64().unwrap_or(8);
+    let rounds = b["rounds"].as_i64().unwrap_or(3);
+    let vlen = b["vlen"].as_u64().unwrap_or(40) as usize;
+    let mut rng = b["seed"].as_u64().unwrap_or(1) | 1;
+    let kvs = lsmtk::KeyValueStore::open(store_opts(root, b)).unwrap();
+    for r in 1..=rounds {
+        for k in 1..=nkeys {
+            match xorshift(&mut rng) % 4 {
+                0 => {}
+                1 => kvs.del(&dkey(k)).unwrap(),
+                _ => kvs.put(&dkey(k), &sval(k, r, vlen)).unwrap(),
+            }
+        }
+        if r < rounds || !b["unflushed"].as_bool().unwrap_or(false) {
+            kvs.verif_flush_once().unwrap();
+            for _ in 0..(xorshift(&mut rng) % 4) { if !kvs.verif_tree().verif_compact_once().unwrap() { break; } }
+        }
+    }
+    drop(kvs);
+}
+
+fn copy_dir(from: &Path, to: &Path) {
+    let _ = std::fs::remove_dir_all(to);
+    std::fs::create_dir_all(to).unwrap();
+    for e in std::fs::read_dir(from).unwrap().flatten() {
+        let p = e.path();
+        let t = to.join(e.file_name());
+        if p.is_dir() { copy_dir(&p, &t); } else { std::fs::copy(&p, &t).unwrap(); }
+    }
+}
+
+/// Files of a store by kind: (kind, relative path), sorted.
+fn store_files(root: &Path) -> Vec<(String, PathBuf)> {
+    let mut out = vec![];
+    for (kind, sub) in [("sst", "sst"), ("mani", "mani"), ("log", "")] {
+        let mut names: Vec<PathBuf> = std::fs::read_dir(root.join(sub)).map(|d| d.flatten().map(|e| e.path()).collect()).unwrap_or_default();
+        names.sort();
+        for p in names {
+            let name = p.file_name().unwrap().to_string_lossy().to_string();
+            if kind == "log" && !name.starts_with("log.") { continue; }
+            if p.is_file() && name != "LOCKFILE" && std::fs::metadata(&p).map(|m| m.len() > 0).unwrap_or(false) {
+                out.push((kind.to_string(), PathBuf::from(sub).join(name)));
+            }
+        }
+    }
+    out
+}
+
+type Truth = (Vec<Option<Vec<u8>>>, Vec<Entry>);
+
+fn read_store(root: &Path, b: &Value, truth: Option<&Truth>) -> (Vec<Value>, Option<Truth>) {
+    let nkeys = b["nkeys"].as_i64().unwrap_or(8);
+    let mut ops = vec![];
+    let r = catch_unwind(AssertUnwindSafe(|| lsmtk::KeyValueStore::open(store_opts(root, b)).map_err(|e| format!("{e:?}"))));
+    let (st, kvs) = status_of(r);
+    ops.push(json!({"op": "open", "status": st}));
+    let Some(kvs) = kvs else { return (ops, None); };
+    let mut gets = vec![];
+    for k in 1..=nkeys + 1 {
+        let r = catch_unwind(AssertUnwindSafe(|| { let mut t = false; kvs.load(&dkey(k), &mut t).map_err(|e| format!("{e:?}")) }));
+        let (st, got) = status_of(r);
+        let same = match (truth, &got) { (Some(t), Some(g)) => t.0[k as usize - 1] == *g, _ => true };
+        ops.push(json!({"op": "get", "k": k, "status": st, "same": st == "ok" && same}));
+        gets.push(got.unwrap_or(None));
+    }
+    let mut scanned: Vec<Entry> = vec![];
+    let mut exact = true;
+    let r = catch_unwind(AssertUnwindSafe(|| -> Result<(), String> {
+        let u: std::ops::Bound<Vec<u8>> = std::ops::Bound::Unbounded;
+        let mut c = kvs.range_scan(&u, &u).map_err(|e| format!("{e:?}"))?;
+        c.seek_to_first().map_err(|e| format!("{e:?}"))?;
+        c.next().map_err(|e| format!("{e:?}"))?;
+        while let Some(kvr) = c.key_value() {
+            let got: Entry = (kvr.key.to_vec(), kvr.timestamp, kvr.value.map(|v| v.to_vec()));
+            if let Some(t) = truth { if scanned.len() >= t.1.len() || t.1[scanned.len()] != got { exact = false; } }
+            scanned.push(got);
+            if scanned.len() > 10000 { break; }
+            c.next().map_err(|e| format!("{e:?}"))?;
+        }
+        Ok(())
+    }));
+    let (st, _) = status_of(r);
+    let full = truth.map(|t| t.1.len() == scanned.len()).unwrap_or(true);
+    ops.push(json!({"op": "scan", "status": st, "delivered": scanned.len(), "exact": exact, "same": st == "ok" && exact && full}));
+    drop(kvs);
+    let r = catch_unwind(AssertUnwindSafe(|| -> Result<(), String> {
+        let mut v = lsmtk::LsmVerifier::open(store_opts(root, b)).map_err(|e| format!("{e:?}"))?;
+        match v.verify() { Ok(()) => Ok(()), Err(e) if lsmtk::error_code(&e) == Some(lsmtk::CODE_BACKOFF) => Ok(()), Err(e) => Err(format!("{e:?}")) }
+    }));
+    let (st, _) = status_of(r);
+    ops.push(json!({"op": "sverify", "status": st}));
+    (ops, Some((gets, scanned)))
+}
+
 /////////////////////////////////////////////// damage //////////////////////////////////////////////
 
 fn region_of(regions: &[Region], off: u64) -> (usize, String, String, u64, String) {
@@ -421,9 +567,24 @@ fn apply(bytes: &mut Vec<u8>, regions: &[Region], d: &Value, rng: &mut u64) -> O
             if off as usize >= bytes.len() { return None; }
             let old = bytes[off as usize];
             let new = if kind == "flip" { old ^ (1u8 << d["bit"].as_u64().unwrap_or(0)) } else {
-                match d["byte"].as_i64() { Some(b) if b >= 0 => b as u8, _ => (xorshift(rng) % 256) as u8 }
+                match d["byte"].as_i64() { Some(b) if (0..=255).contains(&b) => b as u8, _ => (xorshift(rng) % 256) as u8 }
             };
             bytes[off as usize] = new;
+            // a patch: the given bytes from this offset on
+            let mut changed = old != new;
+            if let Some(patch) = d["bytes"].as_array() {
+                bytes[off as usize] = old;
+                changed = false;
+                for (j, v) in patch.iter().enumerate() {
+                    if let Some(b) = bytes.get_mut(off as usize + j) { let nb = v.as_u64().unwrap() as u8; changed |= *b != nb; *b = nb; }
+                }
+            }
+            let new = if d["bytes"].is_array() { bytes[off as usize] } else { new };
+            // a run: the same byte over the following run-1 positions as well
+            for j in 1..d["run"].as_u64().unwrap_or(1) {
+                if let Some(b) = bytes.get_mut((off + j) as usize) { changed |= *b != new; *b = new; }
+            }
+            let old = if changed && old == new { !new } else { old };
             let (ridx, rkind, rpos, aux, frame) = region_of(regions, off);
             Some(json!({"kind": kind, "off": off, "old": old, "new": new, "noop": old == new, "ridx": ridx, "rkind": rkind, "rpos": rpos, "aux": aux, "frame": frame}))
         }
@@ -444,8 +605,96 @@ fn apply(bytes: &mut Vec<u8>, regions: &[Region], d: &Value, rng: &mut u64) -> O
             }
             Some(json!({"kind": "extend", "off": at, "n": n, "fill": fill, "noop": n == 0, "ridx": 0, "rkind": "end", "rpos": "none", "aux": 0, "frame": ""}))
         }
+        "craft" => {
+            // a short sequence of byte overwrites that puts the largest value into a length field no checksum covers
+            match d["what"].as_str().unwrap() {
+                "log-size-max" => {
+                    // the header of a frame becomes [size = the largest varint that fits, crc], same length
+                    let mut dd = d.clone();
+                    dd["rkind"] = json!("header");
+                    dd["pos"] = json!("first");
+                    let off = resolve(regions, &dd)? as usize;
+                    let r = regions.iter().find(|r| r.start == off as u64)?;
+                    let len = (r.limit - r.start) as usize;
+                    if len < 8 { return None; }
+                    let vlen = len - 6;
+                    let mut h = vec![0x50u8];
+                    for j in 0..vlen { h.push(if j + 1 == vlen { 0x7f } else { 0xff }); }
+                    h.push(0x65);
+                    h.extend_from_slice(&[1, 2, 3, 4]);
+                    bytes[off..off + len].copy_from_slice(&h);
+                    let (ridx, rkind, rpos, aux, frame) = region_of(regions, off as u64);
+                    Some(json!({"kind": "over", "craft": "log-size-max", "off": off, "run": len, "noop": false, "ridx": ridx, "rkind": rkind, "rpos": rpos, "aux": aux, "frame": frame}))
+                }
+                "sst-trailer" => {
+                    let n = bytes.len();
+                    let v: u64 = match d["value"].as_str().unwrap_or("max") { "max" => u64::MAX, "size" => n as u64, "size+1" => n as u64 + 1, "zero" => 0, "one" => 1, _ => (n / 2) as u64 };
+                    let old = bytes[n - 8..].to_vec();
+                    bytes[n - 8..].copy_from_slice(&v.to_le_bytes());
+                    let (ridx, rkind, rpos, aux, frame) = region_of(regions, n as u64 - 8);
+                    Some(json!({"kind": "over", "craft": "sst-trailer", "off": n - 8, "run": 8, "noop": old == v.to_le_bytes(), "ridx": ridx, "rkind": rkind, "rpos": rpos, "aux": aux, "frame": frame}))
+                }
+                w => tool_error(&format!("unknown craft {w}")),
+            }
+        }
         k => tool_error(&format!("unknown damage kind {k}")),
     }
+}
+
+/// Store level: one file of a closed store is damaged; the store is opened, every key read, everything scanned, and
+/// the verifier run; the truth is what the same readers return on an undamaged copy.
+fn store_main(doc: &Value, out: &mut std::io::BufWriter<std::fs::File>, scratch: &Path) -> ! {
+    use std::io::Write;
+    let build = &doc["build"];
+    let pristine = scratch.join("pristine");
+    let work = scratch.join("work");
+    build_store(build, &pristine);
+    let files = store_files(&pristine);
+    let mut fregions: Vec<Vec<Region>> = vec![];
+    let mut layout = vec![];
+    for (kind, rel) in &files {
+        let bytes = std::fs::read(pristine.join(rel)).unwrap();
+        let regions = match kind.as_str() { "sst" => sst_regions(&pristine.join(rel)), "log" => log_regions(&bytes), _ => mani_regions(&bytes) };
+        layout.push(json!({"kind": kind, "name": rel.to_string_lossy(), "size": bytes.len(), "regions": regions.len()}));
+        fregions.push(regions);
+    }
+    copy_dir(&pristine, &work);
+    let (ops0, truth) = read_store(&work, build, None);
+    let Some(truth) = truth else { tool_error(&format!("the pristine store does not open: {ops0:?}")) };
+    if ops0.iter().any(|o| o["status"] != "ok") { tool_error(&format!("the pristine store does not read back: {ops0:?}")); }
+    writeln!(out, "{}", json!({"ev": "layout", "file": "store", "files": layout, "size": 0, "regions": [], "keys": truth.0.len(), "entries": truth.1.len()})).unwrap();
+    let mut rng = doc["seed"].as_u64().unwrap_or(1) | 1;
+    let mut n = 0u64;
+    for case in doc["cases"].as_array().cloned().unwrap_or_default() {
+        let target = case["target"].as_str().unwrap_or("sst");
+        let idxs: Vec<usize> = files.iter().enumerate().filter(|(_, f)| f.0 == target).map(|(i, _)| i).collect();
+        if idxs.is_empty() { continue; }
+        let fi = idxs[case["file_index"].as_u64().unwrap_or(0) as usize % idxs.len()];
+        copy_dir(&pristine, &work);
+        let path = work.join(&files[fi].1);
+        let mut b = std::fs::read(&path).unwrap();
+        let mut applied: Vec<Value> = vec![];
+        for d in case["dmgs"].as_array().unwrap() {
+            if let Some(a) = apply(&mut b, &fregions[fi], d, &mut rng) { applied.push(a); }
+        }
+        if applied.is_empty() { continue; }
+        let final_len = b.len() as u64;
+        for a in applied.iter_mut() {
+            let cut = a["kind"] != "trunc" && a["kind"] != "extend" && a["off"].as_u64().unwrap() >= final_len;
+            a["cut"] = json!(cut);
+            a["target"] = json!(target);
+        }
+        std::fs::write(&path, &b).unwrap();
+        inflight(&json!({"doc": {"file": "store", "build": build, "seed": doc["seed"], "cases": [case]}}));
+        let (ops, _) = read_store(&work, build, Some(&truth));
+        n += 1;
+        writeln!(out, "{}", json!({"ev": "case", "file": "store", "target": target, "name": files[fi].1.to_string_lossy(), "dmgs": applied, "ops": ops, "spec": case})).unwrap();
+    }
+    writeln!(out, "{}", json!({"ev": "end"})).unwrap();
+    out.flush().unwrap();
+    let _ = std::fs::remove_dir_all(scratch);
+    println!("RESULT {}", json!({"evaluations": n, "steps": n, "distinct": n, "known": {}, "violations": [], "samples": [], "extra": {}}));
+    std::process::exit(0);
 }
 
 pub fn main(args: &[String]) -> ! {
@@ -461,6 +710,9 @@ pub fn main(args: &[String]) -> ! {
     let build = &doc["build"];
     let mut out = std::io::BufWriter::new(std::fs::File::create(&args[1]).unwrap());
     use std::io::Write;
+    if file == "store" {
+        store_main(&doc, &mut out, &scratch);
+    }
     let pristine_path = scratch.join("pristine");
     let damaged_path = scratch.join("damaged");
     let (bytes, regions): (Vec<u8>, Vec<Region>);
@@ -550,11 +802,17 @@ pub fn main(args: &[String]) -> ! {
     let mut worst: Vec<Value> = vec![];
     for case in &cases {
         let mut b = bytes.clone();
-        let mut applied = vec![];
+        let mut applied: Vec<Value> = vec![];
         for d in case["dmgs"].as_array().unwrap() {
             if let Some(a) = apply(&mut b, &regions, d, &mut rng) { applied.push(a); }
         }
         if applied.is_empty() { continue; }
+        // damage that a later truncation removed again did not happen
+        let final_len = b.len() as u64;
+        for a in applied.iter_mut() {
+            let cut = a["kind"] != "trunc" && a["kind"] != "extend" && a["off"].as_u64().unwrap() >= final_len;
+            a["cut"] = json!(cut);
+        }
         inflight(&json!({"doc": {"file": file, "build": build, "seed": doc["seed"], "cases": [case]}}));
         let ops = match file.as_str() {
             "sst" => { std::fs::write(&damaged_path, &b).unwrap(); read_sst(&damaged_path, &entries, &blocks, &setsum) }
@@ -562,7 +820,7 @@ pub fn main(args: &[String]) -> ! {
             _ => read_mani(&damaged_path, &b, &edits, &pristine_state, &prefix_states),
         };
         n += 1;
-        let ev = json!({"ev": "case", "file": file, "dmgs": applied, "ops": ops});
+        let ev = json!({"ev": "case", "file": file, "dmgs": applied, "ops": ops, "spec": case});
         if worst.len() < 3 && ops.iter().any(|o| o["status"] == "panic") { worst.push(ev.clone()); }
         writeln!(out, "{ev}").unwrap();
     }
